@@ -63,7 +63,7 @@ def framingFor (v : Variant) (maxRecv : Nat) : Framing :=
   `rs.conn <t|a> <s|c> <supported> <exp> <maxRecv> <chunk>*`          connection fed read by read
   `rs.frames <t|a> <maxRecv> <chunk>*`                                framing only
   `rs.parse <t|a> <maxRecv> <stream>`                                 Spec: whole-stream parse
-  `rs.sendguard <t|a> <maxLenSend> <len>` / `rs.sendspec <peerMax> <len>`
+  `rs.sendguard <t|a> <maxLenSend> <len>` / `rs.sendstring <maxLenSend> <len>` / `rs.sendspec <peerMax> <len>`
   `rs.exp <size>`  `rs.maxlen <n>`  `rs.request <t|a> <exp> <ser>`  `rs.ladder <t|a> <Exc>`  `rs.life <a|l>*` -/
 def handle : List String → Option String
   | ["rs.hs", v, r, sup, exp, h] => do
@@ -92,6 +92,11 @@ def handle : List String → Option String
   | ["rs.sendguard", v, m, n] => do
       let v ← parseVariant v; let m ← m.toNat?; let n ← n.toNat?
       pure (match sendGuard v m n with
+        | some e => s!"error {e.name}"
+        | none => s!"sent {Hex.render (be32enc n)}")
+  | ["rs.sendstring", m, n] => do
+      let m ← m.toNat?; let n ← n.toNat?
+      pure (match aioSendStringGuard m n with
         | some e => s!"error {e.name}"
         | none => s!"sent {Hex.render (be32enc n)}")
   | ["rs.sendspec", m, n] => do
